@@ -66,6 +66,8 @@ fn traversal(which: usize) {
 
     let s = nd::usize();
 
+    kani::cover!(s >= 3, "WITNESS: an out-of-range source id");
+
     match which {
         0 => {
             let g = G::<3>::any();
@@ -122,8 +124,6 @@ fn traversal(which: usize) {
             core::mem::forget(it);
         }
     }
-
-    kani::cover!(s >= 3, "WITNESS: an out-of-range source id");
 }
 
 /// A user-built PredecessorTree with UNCONSTRAINED entries.
@@ -138,10 +138,12 @@ fn pred_tree_unconstrained() {
 
     let s = nd::below(3);
     let t = nd::usize();
+
+    kani::cover!(matches!(tree[s], Some(x) if x >= 3) && t != s, "WITNESS: an out-of-range predecessor entry on the chain");
+
     let r = tree.search(s, t);
 
     kani::cover!(r.is_none(), "a search that ends without a hit");
-    kani::cover!(matches!(tree[s], Some(x) if x >= 3), "WITNESS: an out-of-range predecessor entry on the chain");
     core::mem::forget(r);
     core::mem::forget(tree);
 }
@@ -152,6 +154,7 @@ fn matrix_any_order() {
     let order = nd::usize();
 
     kani::assume(order >= 2);
+    kani::cover!(order == 1 << 32, "WITNESS: an order whose square wraps to 0");
 
     let mut d = AdjacencyMatrix::empty(order);
 
@@ -193,9 +196,9 @@ fn bfm_source_out_of_range() {
     crate::rejected_call_returned();
 }
 
-/// AdjacencyMap with vertex ids {0, 2, 5}: the operations that index by id.
+/// AdjacencyMap with vertex ids {0, 2, 3}: the operations that index by id.
 fn map_noncontiguous(which: usize) {
-    const IDS: [usize; 3] = [0, 2, 5];
+    const IDS: [usize; 3] = [0, 2, 3];
 
     cx::set_vcap(8);
 
@@ -203,9 +206,9 @@ fn map_noncontiguous(which: usize) {
     let mut d = AdjacencyMap::empty(1);
 
     d.add_arc(0, 2);
-    d.add_arc(2, 5);
+    d.add_arc(2, 3);
     let _ = d.remove_arc(0, 2);
-    let _ = d.remove_arc(2, 5);
+    let _ = d.remove_arc(2, 3);
 
     for u in 0..3 {
         for v in 0..3 {
@@ -214,6 +217,8 @@ fn map_noncontiguous(which: usize) {
             }
         }
     }
+
+    kani::cover!(g.a[0][2], "WITNESS: an arc into the vertex with the largest id");
 
     match which {
         0 => core::mem::forget(d.converse()),
@@ -225,7 +230,6 @@ fn map_noncontiguous(which: usize) {
         }
     }
 
-    kani::cover!(g.a[0][2], "WITNESS: an arc into the vertex with the largest id");
     core::mem::forget(d);
 }
 
@@ -312,7 +316,8 @@ pub fn c13_pred_tree_unconstrained() {
 }
 
 // AdjacencyMatrix::empty(any order >= 2) + add_arc + has_arc + remove_arc.
-// @verif prop=C13 tier=quick fl=f0 role=order-overflow/matrix t=900 mem=12 miri=1 allow=panic
+// Release semantics (wrapping arithmetic): Kani runs this one with --no-overflow-checks.
+// @verif prop=C13 tier=quick fl=f0 role=order-overflow/matrix t=900 mem=12 miri=1 allow=panic kani=-Z,unstable-options,--no-overflow-checks
 #[cfg_attr(kani, kani::proof)]
 #[cfg_attr(kani, kani::unwind(8))]
 pub fn c13_matrix_any_order() {
@@ -335,22 +340,22 @@ pub fn c13_bfm_source_out_of_range() {
     bfm_source_out_of_range();
 }
 
-// AdjacencyMap {0, 2, 5}: converse indexes a Vec of `order` rows by vertex id.
-// @verif prop=C13 tier=quick fl=f1 role=noncontiguous/converse t=1200 mem=12 miri=1 allow=panic
+// AdjacencyMap {0, 2, 3}: converse indexes a Vec of `order` rows by vertex id.
+// @verif prop=C13 tier=quick fl=f1 feat=map4 role=noncontiguous/converse t=1200 mem=12 miri=1 allow=panic
 #[cfg_attr(kani, kani::proof)]
 #[cfg_attr(kani, kani::unwind(10))]
 pub fn c13_map_noncontiguous_converse() {
     map_noncontiguous(0);
 }
 
-// @verif prop=C13 tier=quick fl=f1 role=noncontiguous/is-semicomplete t=1200 mem=12 miri=1 allow=panic
+// @verif prop=C13 tier=quick fl=f1 feat=map4 role=noncontiguous/is-semicomplete t=1200 mem=12 miri=1 allow=panic
 #[cfg_attr(kani, kani::proof)]
 #[cfg_attr(kani, kani::unwind(10))]
 pub fn c13_map_noncontiguous_is_semicomplete() {
     map_noncontiguous(1);
 }
 
-// @verif prop=C13 tier=quick fl=f1 role=noncontiguous/is-tournament t=1200 mem=12 miri=1 allow=panic
+// @verif prop=C13 tier=quick fl=f1 feat=map4 role=noncontiguous/is-tournament t=1200 mem=12 miri=1 allow=panic
 #[cfg_attr(kani, kani::proof)]
 #[cfg_attr(kani, kani::unwind(10))]
 pub fn c13_map_noncontiguous_is_tournament() {
